@@ -231,14 +231,96 @@ def task_wide(t):
     return rep
 
 
+def task_requery(t):
+    """The same queries asked again after the manager changed: every function of three variables
+    in a manager that also declares unused variables (on top, in between, at the bottom); all
+    queries once (anything the library remembers is now warm), then after each step of a
+    sequence of legitimate changes (removing / adding unused variables, swaps, reordering,
+    collections) all queries again."""
+    _, oi, si, ns, focus = t
+    rep = run.Report()
+    rec = sweep.Rec(rep)
+    names = names_for(3, env.SEED)
+    U = Universe(names)
+    base = sorted(sweep.orders(names)[oi], key=sweep.orders(names)[oi].get)
+    seq = ['_a', base[0], '_b', base[1], base[2], '_c']
+    bdd = S.new_bdd({v: i for i, v in enumerate(seq)})
+    b = sweep.Builder(bdd, U)
+    fs = sweep.shard(list(U.all_functions(names)), ns)[si]
+    refs = {}
+    for f in fs:
+        r = b.verified(f)
+        bdd.incref(r)
+        refs[f] = r
+    import dd.bdd as _bddm
+
+    def rev():
+        n_ = len(bdd.vars)
+        _bddm.reorder(bdd, {v: n_ - 1 - l for v, l in bdd.vars.items()})
+    steps = [('queries only', lambda: None),
+             ("undeclare_vars('_a')", lambda: bdd.undeclare_vars('_a')),
+             ('swap(0, 1)', lambda: bdd.swap(0, 1)),
+             ("undeclare_vars('_b')", lambda: bdd.undeclare_vars('_b')),
+             ("add_var('_n')", lambda: bdd.add_var('_n')),
+             ('reorder to the reversed order', rev),
+             ('collect_garbage()', lambda: bdd.collect_garbage()),
+             ("undeclare_vars()", lambda: bdd.undeclare_vars()),
+             ('sifting', lambda: _bddm.reorder(bdd)),
+             ('queries again', lambda: None)]
+    done = []
+    for label, step in steps:
+        try:
+            step()
+        except Exception as e:  # noqa
+            rec('requery-step:' + label, 'a legitimate change raised %r' % (e,),
+                dict(task=t, after=done + [label]))
+            break
+        done.append(label)
+        for f, r in refs.items():
+            if focus is not None and f != focus:
+                continue
+            case = dict(task=t[:-1] + (f,), u=U.fmt(f), after=list(done))
+            try:
+                rep.add('evaluations')
+                O.observe_queries(bdd, U, r, f)
+                sup = U.support(f)
+                for x in names:
+                    if bool(bdd.is_essential(r, x)) != (x in sup):
+                        raise Violation('is_essential disagrees with the support (in a history)')
+                picks = list(bdd.pick_iter(r))
+                err = _check_picks(U, f, None, picks, names)
+                if err:
+                    raise Violation('pick_iter (in a history): ' + err)
+                extra = next((v for v in bdd.vars if v not in names), None)
+                if extra is not None:
+                    U2 = Universe(names + (extra,))
+                    f2 = f | (f << U.N)         # the same function, over one more name
+                    err = _check_picks(U2, f2, set(sup) | {extra}, list(
+                        bdd.pick_iter(r, set(sup) | {extra})), names + (extra,))
+                    if err:
+                        raise Violation('pick_iter with an unused care variable (in a history): '
+                                        + err)
+                if len(done) > 1 and f not in (0, U.full):
+                    rep.add('nontrivial')
+            except Violation as e:
+                rec('requery:' + e.what, e.what, case, **e.detail)
+            except Exception as e:  # noqa
+                rec('requery-exception:' + type(e).__name__, 'raised %r' % (e,), case)
+    if si == 0 and focus is None:
+        rep.sample(dict(kind='queries repeated after changes', steps=[l for l, _ in steps]))
+    return rep
+
+
 def dispatch(t):
+    if t[0] == 'requery':
+        return task_requery(t)
     if t[0] == 'wide':
         return task_wide(t)
     return task_bdd(t)
 
 
 def plan(tier):
-    ts = []
+    ts = [('requery', oi, si, 2, None) for oi in range(6) for si in range(2)]
     for si in range(4):
         ts.append(('wide', 12, 2, si, 4, None))
     for si in range(16):
